@@ -259,6 +259,29 @@ def extra_cases(rng, tier):
     for dt in (int, bool, "int32"):
         add("array", "array(x, dtype=%s) (piecewise constant)" % (dt if isinstance(dt, str) else dt.__name__), (lambda m, z, dt=dt: m.array(z, dtype=dt) * 1.0 + 0.0 * z), [R.half_ints(rng, (2, 3))], [0], False, modes=("rev",))
         add("array", "array(x, %s) positional dtype" % (dt if isinstance(dt, str) else dt.__name__), (lambda m, z, dt=dt: m.array(z, dt) * z), [R.half_ints(rng, (2, 3))], [0], False, modes=("rev",))
+    # ---- (0k) magnitudes at which squares overflow / underflow (the rules must not square what NumPy does not) ----
+    big, small = onp.array([3.0e200, -1.0e180, 2.5e160]), onp.array([3.0e-200, -1.0e-180, 2.5e-170])
+    for mag, pts in (("huge", big), ("tiny", small)):
+        q = pts[::-1] * 0.5
+        # (divide, reciprocal, arctan2 and norm square their arguments in the rule and overflow / underflow at 1e+-200 at the
+        #  pinned tree already: observed, outside "well-scaled", not rows)
+        for name, f2 in (("hypot", lambda m, a, b: m.hypot(a, b)), ("maximum", lambda m, a, b: m.maximum(a, b)), ("subtract", lambda m, a, b: a - b)):
+            paired(name, "%s operands" % mag, f2, [pts, q], (0, 1))
+        for name, f1 in (("abs", lambda m, a: m.abs(a)), ("sqrt", lambda m, a: m.sqrt(m.abs(a))), ("sign*x", lambda m, a: m.sign(a) * a),
+                         ("max", lambda m, a: m.max(a)), ("sum", lambda m, a: m.sum(a)), ("mean", lambda m, a: m.mean(a)), ("cumsum", lambda m, a: m.cumsum(a)), ("sort", lambda m, a: m.sort(a)),
+                         ("log", lambda m, a: m.log(m.abs(a))), ("cbrt-free power", lambda m, a: m.abs(a) ** 0.5)):
+            paired(name, "%s entries" % mag, f1, [pts])
+    # ---- (0l) stacks of n matrices of size n x n (an axis mix-up goes unnoticed by shape) ----
+    S3 = spd_stack2(3, 3)
+    for name, f in (("linalg.det", lambda m, a: m.linalg.det(a)), ("linalg.slogdet", lambda m, a: m.linalg.slogdet(a)[1]), ("linalg.inv", lambda m, a: m.linalg.inv(a)),
+                    ("linalg.cholesky", lambda m, a: m.linalg.cholesky((a + m.swapaxes(a, -1, -2)) / 2)), ("linalg.eigh", lambda m, a: m.linalg.eigh((a + m.swapaxes(a, -1, -2)) / 2)[0]),
+                    ("linalg.svd", lambda m, a: m.linalg.svd(a, compute_uv=False)), ("linalg.pinv", lambda m, a: m.linalg.pinv(a)), ("linalg.norm", lambda m, a: m.linalg.norm(a, axis=(-2, -1))),
+                    ("trace", lambda m, a: m.trace(a, axis1=-2, axis2=-1)), ("trace-default", lambda m, a: m.trace(a)), ("diagonal", lambda m, a: m.diagonal(a, 0, -1, -2)),
+                    ("matmul", lambda m, a: m.matmul(a, a)), ("transpose-last-two", lambda m, a: m.swapaxes(a, -1, -2) * a), ("einsum-batched", lambda m, a: m.einsum("bij,bjk->bik", a, a)),
+                    ("tensordot", lambda m, a: m.tensordot(a, a, axes=([2], [1]))), ("dot", lambda m, a: m.dot(a, a[0]))):
+        add(name, "stack of three 3x3", f, [S3], [0], False)
+    add("linalg.solve", "stack of three 3x3, stack of vectors as columns", (lambda m, a, b: m.linalg.solve(a, b)), [S3, R.distinct(rng, (3, 3, 1))], [0, 1], False)
+    add("linalg.solve", "stack of three 3x3, (3,3) right-hand side", (lambda m, a, b: m.linalg.solve(a, b)), [S3, R.distinct(rng, (3, 3))], [0, 1], False)
     # ---- (a) the same array object in two argument positions: the derivative is the sum over both positions ----
     v4 = R.distinct(rng, (4,))
     p4 = R.positive(rng, (4,))
